@@ -114,6 +114,51 @@ def build():
     params=dict(self=MO(), left=Int), requires=inv,
     ensures={"key_of_view": "implies(result is not None, rel(self, left, result))",
              "none_iff_unmapped": "(result is None) == forall(r, True, not rel(self, left, r))"}, defs=mo))
+  # ---- lookup.SimpleLookupMapping on top of the many-to-one map --------------------------------
+  import lookup
+  SLM = lambda: Obj("SimpleLookupMapping", real_cls=lookup.SimpleLookupMapping, _row_key_map=MO(),
+                    consts={"get_new_keys_iter": SelfModel(
+                        "get_new_keys_iter(rec) -> [key of rec]  (the ghost parameter new_key)",
+                        lambda ip, s, rec: [rec.fields["__key__"]])})
+  Rec = lambda: Obj("Record", _row_id=Int, __key__=Int)
+  lm = dict(mo, m="lambda s: s._row_key_map")
+  linv = {"sync": "sync(m(self))", "no_empty": "no_empty(m(self))"}
+  out.append(Contract(
+    prefix="C13.lookupmap.update_record", target="lookup:SimpleLookupMapping.update_record",
+    file="sandbox/grist/lookup.py",
+    params=dict(self=SLM(), rec=Rec()), requires=linv,
+    ensures=dict(linv,
+      row_indexed_under_its_key="rel(m(self), rec._row_id, rec.__key__)",
+      only_this_row_moves="forall(l, r, l != rec._row_id, rel(m(self), l, r) == rel(m(old(self)), l, r))",
+      row_has_one_key="forall(r, rel(m(self), rec._row_id, r), r == rec.__key__)",
+      affected_keys="forall(k, True, (k in result) == ((k == rec.__key__ or rel(m(old(self)), rec._row_id, k)) "
+                    "and not rel(m(old(self)), rec._row_id, rec.__key__)))"),
+    defs=lm,
+    notes="keys are modelled as integers (hashable): the `except TypeError` path for an unhashable "
+          "new key is outside this contract; get_new_keys_iter (reading the record's cells) is a stub "
+          "returning the ghost key of the record"))
+  out.append(Contract(
+    prefix="C13.lookupmap.lookup_by_key", target="lookup:BaseLookupMapping.lookup_by_key",
+    file="sandbox/grist/lookup.py",
+    params=dict(self=SLM(), key=Int), requires=linv,
+    ensures={"exactly_the_rows_with_that_key": "implies(result is not None, forall(l, True, (l in result) == rel(m(self), l, key)))",
+             "none_iff_no_row": "(result is None) == forall(l, True, not rel(m(self), l, key))"},
+    defs=lm))
+  out.append(Contract(
+    prefix="C13.lookupmap.remove_row_id", target="lookup:BaseLookupMapping.remove_row_id",
+    file="sandbox/grist/lookup.py",
+    params=dict(self=SLM(), row_id=Int), requires=dict(linv, mapped="row_id in m(self)._fwd"),
+    loops={0: LoopSpec("C13.lookupmap.remove_row_id.loop", index="idx", locals=dict(self=SLM()),
+      invariants=dict(linv,
+        others_kept="forall(l, r, l != row_id, rel(m(self), l, r) == rel(m(old(self)), l, r))",
+        progress="forall(r, True, rel(m(self), row_id, r) == (rel(m(old(self)), row_id, r) and "
+                 "not exists(i, 0 <= i < idx, __iterated__[i] == r)))",
+        iterating_the_old_keys="forall(i, 0 <= i < len(__iterated__), rel(m(old(self)), row_id, __iterated__[i])) and "
+                               "forall(r, rel(m(old(self)), row_id, r), exists(i, 0 <= i < len(__iterated__), __iterated__[i] == r))"))},
+    ensures=dict(linv,
+      row_gone="forall(r, True, not rel(m(self), row_id, r))",
+      others_kept="forall(l, r, l != row_id, rel(m(self), l, r) == rel(m(old(self)), l, r))"),
+    defs=lm, notes="requires the row to be indexed (get_mapped_keys of an unmapped row yields {None})"))
   return out
 
 
@@ -145,4 +190,5 @@ def _n_map(method, single):
 
 
 for _c in CONTRACTS:
-  _c.native = _n_map(_c.prefix.split(".")[-1], ".single." in _c.prefix)
+  if ".twoway." in _c.prefix:
+    _c.native = _n_map(_c.prefix.split(".")[-1], ".single." in _c.prefix)
